@@ -142,6 +142,7 @@ def run_job(job, workdir, want_trace=True):
     with open(c, 'w') as f:
         f.write(job.c_source)
     r.c_path = c
+    src_lines = job.c_source.split('\n')
     defs = ['-D%s=%s' % (k, v) for k, v in job.defines.items()]
     a, b = os.path.join(d, 'a.gb'), os.path.join(d, 'b.gb')
     cmd = ['goto-cc', '--function', job.entry, '-I', LIB] + defs + [c, '-o', a]
@@ -197,11 +198,19 @@ def run_job(job, workdir, want_trace=True):
                 r.canaries_hit += 1
             continue
         ob = Obligation(job.name, pid, desc, x['status'], '%s:%s' % (loc.get('function', ''), loc.get('line', '')))
+        if ob.tags is None and loc.get('file', '').endswith('unit.c') and str(loc.get('line', '')).isdigit():
+            ln = int(loc['line'])
+            if 0 < ln <= len(src_lines):
+                mt = re.search(r'/\*(C\d\d(?:,C\d\d)*)\*/', src_lines[ln - 1])
+                if mt:
+                    ob.tags = mt.group(1).split(',')
         r.obligations.append(ob)
         if x['status'] != 'SUCCESS':
             r.failed.append(ob)
     if not r.obligations:
         r.reason = 'vacuous: zero obligations generated'
+    elif r.failed:
+        r.status = 'failed'      # a counterexample outranks every vacuity guard
     elif r.canaries_hit < job.canaries:
         r.reason = 'vacuous: only %d of %d reachability canaries reachable (contradictory requires / unreachable end)' % (
             r.canaries_hit, job.canaries)
@@ -209,8 +218,6 @@ def run_job(job, workdir, want_trace=True):
         missing = [e for e in job.expect if not any(re.search(e, o.pid) or re.search(e, o.desc) for o in r.obligations)]
         if missing:
             r.reason = 'expected obligations not generated (dropped contract?): %s' % missing
-        elif r.failed:
-            r.status = 'failed'
         else:
             r.status = 'ok'
     if r.status == 'failed' and want_trace:
